@@ -2,9 +2,9 @@
    and the reference relation `sub` ("every value of type A is acceptable where B is required, covariant
    generics") written from the property text.
 
-   The model mirrors the code AFTER the five repairs made for this property (commits "fix:" in the pipefunc
+   The model mirrors the code AFTER the repairs made for this property (commits "fix:" in the pipefunc
    worktree: arity of generic arguments, direction for a required Annotated, string metadata, annotated union
-   sources, element type of an Array against a plain Annotated).  Model/TyOrig.v keeps the dispatch of the
+   sources, element type of an Array against a plain Annotated, constrained TypeVar target without match).  Model/TyOrig.v keeps the dispatch of the
    unrepaired code for the `_refuted` witnesses. *)
 From Verif Require Import Base.Prelude.
 
@@ -142,13 +142,13 @@ Section Step.
     if is_unres a || is_unres b then true
     else ty_eqb a b || is_any b || is_noann a || is_noann b.
 
-  (* _is_typevar_compatible : None = "not decided here" (also the result of `None and ...`) *)
+  (* _is_typevar_compatible : None = "required type is not a TypeVar" *)
   Definition typevar_compatible (a b : ty) : option bool :=
     match b with
     | TVar _ bound cs =>
         if is_nil cs && match bound with None => true | Some _ => false end then Some true
         else if negb (is_nil cs) && existsb (fun c => rec a c) cs then Some true
-        else match bound with Some bd => Some (rec a bd) | None => None end
+        else match bound with Some bd => Some (rec a bd) | None => Some false end
     | _ => None
     end.
 
@@ -220,10 +220,10 @@ Section Step.
   Definition step (a b : ty) : bool :=
     if is_var a then true
     else if check_identical_or_any a b then true
-    else match typevar_compatible a b with
+    else match handle_union a b with
          | Some r => r
          | None =>
-             match handle_union a b with
+             match typevar_compatible a b with
              | Some r => r
              | None =>
                  match handle_generic a b with
